@@ -330,6 +330,11 @@ func C03(p *core.Program, r *core.Report) {
 		}
 	}
 	r.Analysed["pooled_objects_in_pkg_bpv7"] = checkPooledObjectsReset(p, r, bpFuncs)
+	// "every mismatch is rejected": the rejection of a block reaches the caller of the bundle decoder - no decoder on
+	// the way returns nil, or goes on with the next block, after a step of it failed
+	for _, fn := range []*ssa.Function{p.Func(bp7, "Bundle", "UnmarshalCbor"), p.Func(bp7, "CanonicalBlock", "UnmarshalCbor"), p.Func(bp7, "PrimaryBlock", "UnmarshalCbor"), p.Func(bp7, "", "checkCRCField"), p.Func(bp7, "", "ParseBundle")} {
+		checkErrorsNotSwallowed(p, r, fn, "rejection-propagates/", nil)
+	}
 	checkCRCConfig(p, r)
 	checkCRCFieldHelper(p, r)
 	checkCRCCreation(p, r)
